@@ -60,6 +60,18 @@ theorem async_try_generated (σ : World) (parent : Option String) (p : Input) (k
     (hs : SupportedAT p kind) (hgen : gen p kind = .ok code) :
     evalCode σ parent code = specRunAT σ parent p kind := async_try_refines σ parent p kind code hs hgen
 
+/-- **From the tokens to the aborted run** (sequential and thread-spawning try macros): whatever the parser accepts (any behaviour
+    of syn), if the step loop of the parsed program fails with `v`, the code expanded from it returns exactly `v` and its events are
+    the handler definition followed by the loop's events — which contain nothing of a step after the failing one
+    (`no_later_step_after_failure`) and no handler call. -/
+theorem accepted_failing_run (o : Oracle) (toks : Toks) (σ : World) (parent : Option String) (p : Input) (kind : Kind)
+    (code : Code) (hparse : parseMacroInput o toks = .ok p) (hd : PlainInvocation p kind) (hgen : gen p kind = .ok code)
+    (v : Value) (hdef : σ.handlerDef = .ok ()) (h : (loopOf σ parent p kind).res = .ok (.failed v)) :
+    (evalCode σ parent code).res = .ok v ∧
+    (evalCode σ parent code).trace = (handlerDefOf σ p).trace ++ (loopOf σ parent p kind).trace := by
+  rw [accepted_eq_reference o toks σ parent p kind code hparse hd hgen]
+  exact failing_run_trace σ parent p kind v hdef h
+
 /-- …and from the tokens the caller wrote: whatever the parser accepts (any behaviour of syn) under an async try macro
     with default options expands to code that is the async-try reference loop of what was parsed. -/
 theorem accepted_async_try (o : Oracle) (toks : Toks) (σ : World) (parent : Option String) (p : Input) (kind : Kind)
